@@ -1136,6 +1136,9 @@ func main() {
 	switch a["mode"] {
 	case "search":
 		runSearch(a)
+	case "scenario":
+		// clean-process reference for the history check of the searcher
+		fmt.Println("DIGEST " + scenarioDigest(hx.SeedFromEnv()))
 	case "conc":
 		// concurrency phase alone (used with a -race build in the thorough tier)
 		g := &gen{r: hx.NewRng(hx.SeedFromEnv() ^ 0xc0c), class: map[string]int{}}
